@@ -7,6 +7,7 @@ import (
 	"testing"
 
 	"github.com/relab/hotstuff"
+	"github.com/relab/hotstuff/security/crypto"
 	"github.com/relab/hotstuff/verifx/common"
 	"pgregory.net/rapid"
 )
@@ -33,6 +34,62 @@ func (cl *Cluster) blockByHash(h hotstuff.Hash) *hotstuff.Block {
 		}
 	}
 	return nil
+}
+
+// certificateInvalid decides from ground truth whether a quorum certificate for block cb is valid (empty string) or says why
+// not: the claimed signers are distinct, at least a quorum, each really signed cb, and each signature verifies under the
+// claimed signer's key (recomputed for the keyed-hash base; one signature at a time through the scheme for ECDSA/EdDSA).
+func (cl *Cluster) certificateInvalid(qc hotstuff.QuorumCert, cb *hotstuff.Block, real map[hotstuff.ID]bool) string {
+	sig := qc.Signature()
+	if sig == nil {
+		return "no signature"
+	}
+	seen := map[hotstuff.ID]bool{}
+	check := func(id hotstuff.ID, one hotstuff.QuorumSignature, tag []byte) string {
+		if seen[id] {
+			return fmt.Sprintf("signer %d appears twice", id)
+		}
+		seen[id] = true
+		if !real[id] {
+			return fmt.Sprintf("it names replica %d, which never signed that block", id)
+		}
+		if tag != nil {
+			if string(tag) != string(fastTag(id, cb.ToBytes())) {
+				return fmt.Sprintf("the signature attributed to replica %d is not replica %d's signature", id, id)
+			}
+			return ""
+		}
+		if err := cl.HonestStacks()[0].base.Verify(one, cb.ToBytes()); err != nil {
+			return fmt.Sprintf("the signature attributed to replica %d does not verify: %v", id, err)
+		}
+		return ""
+	}
+	switch m := sig.(type) {
+	case crypto.Multi[*fastSig]:
+		for _, p := range m {
+			if why := check(p.signer, nil, p.tag); why != "" {
+				return why
+			}
+		}
+	case crypto.Multi[*crypto.ECDSASignature]:
+		for _, p := range m {
+			if why := check(p.Signer(), crypto.NewMulti(p), nil); why != "" {
+				return why
+			}
+		}
+	case crypto.Multi[*crypto.EDDSASignature]:
+		for _, p := range m {
+			if why := check(p.Signer(), crypto.NewMulti(p), nil); why != "" {
+				return why
+			}
+		}
+	default:
+		return "" // other schemes are not used by this check's generator
+	}
+	if len(seen) < cl.Quorum() {
+		return fmt.Sprintf("only %d distinct signers (quorum %d)", len(seen), cl.Quorum())
+	}
+	return ""
 }
 
 // voteOracle checks every block signature of every honest stack.
@@ -103,6 +160,11 @@ func (cl *Cluster) voteOracle() (fp, msg string, refused, signed map[int]int) {
 				if len(real) < q {
 					return "vote:certificate-without-quorum", fmt.Sprintf("%s whose certificate certifies %s, which only %v really signed (quorum %d)", where, blockName(cb), SortedIDs(real), q), refused, signed
 				}
+				// the certificate ITSELF is valid: a quorum of distinct replicas, each of which really signed the certified
+				// block, and every signature is the one of the replica it is attributed to
+				if why := cl.certificateInvalid(qc, cb, real); why != "" {
+					return "vote:certificate-invalid", fmt.Sprintf("%s whose certificate for %s is not valid: %s", where, blockName(cb), why), refused, signed
+				}
 			} else if qc.View() != 0 {
 				return "vote:certificate-relabelled", fmt.Sprintf("%s whose genesis certificate states view %d", where, qc.View()), refused, signed
 			}
@@ -171,7 +233,7 @@ func c03Prop(c Case) common.Result {
 func genC03(rt *rapid.T) Case {
 	o := GenOpts{Actor: true, Twins: true, ByView: true, MaxSteps: 140, MinFaulty: 1, ActorBias: 28,
 		ActorWeights: map[int]int{AProposeHonest: 4, AProposeWeird: 8, AVote: 1, AAssembleQC: 3, ARelabelQC: 4, ATimeout: 2, ANewView: 2,
-			ARepeatQC: 2, AReplay: 3, AEquivocate: 6, AToggleFetch: 1, AVoteHonestly: 4, AForgedTC: 1, AProposeSkip: 6, AProposeStaleQC: 5, AProposeOnForged: 6}}
+			ARepeatQC: 2, AReplay: 3, AEquivocate: 6, AToggleFetch: 1, AVoteHonestly: 4, AForgedTC: 1, AProposeSkip: 6, AProposeStaleQC: 5, AProposeOnForged: 6, AProposeRelabelledSigners: 6}}
 	cfg := GenConfig(rt, o)
 	return Case{Cfg: cfg, Steps: GenSteps(rt, cfg, o)}
 }
